@@ -119,6 +119,64 @@ Fixpoint input_spans (x : node) : node :=
   | NOther c o => NOther c o
   end.
 
+(** What [Node::hash_deep] feeds (tree.rs:640-673, commit 25aa9f6): [hash_with_span] (content and
+    first span), then recursively every span index and every call's function index; with
+    [Some(asm)] (un.rs, under.rs) the same for the bodies of called functions ([deep]),
+    with [None] (zip.rs) not ([shallow]).  Not fed: the handle's id (name), sig field, origin.
+    (The walk visits a body once per function index; the model does not carry that guard:
+    two calls with the same index in one assembly have the same body.) *)
+Fixpoint deep (x : node) : node :=
+  match x with
+  | NPrim p s => NPrim p s
+  | NMod p args s => NMod p (map (fun a => (deep (fst a), snd a)) args) s
+  | NCall _ _ i h _ b s => NCall 0 0 i h 0 (deep b) s
+  | NGlobal i s => NGlobal i s
+  | NPush v => NPush v
+  | NRun ns => NRun (map deep ns)
+  | NOther c o => NOther c o
+  end.
+Fixpoint shallow (x : node) : node :=
+  match x with
+  | NPrim p s => NPrim p s
+  | NMod p args s => NMod p (map (fun a => (shallow (fst a), snd a)) args) s
+  | NCall _ _ i h _ _ s => NCall 0 0 i h 0 (NRun []) s
+  | NGlobal i s => NGlobal i s
+  | NPush v => NPush v
+  | NRun ns => NRun (map shallow ns)
+  | NOther c o => NOther c o
+  end.
+
+(** everything but the names and origins of the function handles (bodies included / dropped) *)
+Fixpoint no_names (x : node) : node :=
+  match x with
+  | NPrim p s => NPrim p s
+  | NMod p args s => NMod p (map (fun a => (no_names (fst a), snd a)) args) s
+  | NCall _ fs i h _ b s => NCall 0 fs i h 0 (no_names b) s
+  | NGlobal i s => NGlobal i s
+  | NPush v => NPush v
+  | NRun ns => NRun (map no_names ns)
+  | NOther c o => NOther c o
+  end.
+Fixpoint no_bodies (x : node) : node :=
+  match x with
+  | NPrim p s => NPrim p s
+  | NMod p args s => NMod p (map (fun a => (no_bodies (fst a), snd a)) args) s
+  | NCall id fs i h o _ s => NCall id fs i h o (NRun []) s
+  | NGlobal i s => NGlobal i s
+  | NPush v => NPush v
+  | NRun ns => NRun (map no_bodies ns)
+  | NOther c o => NOther c o
+  end.
+
+(** [wf_sig] through the bodies as well *)
+Fixpoint wf_sigd (T : N -> N) (x : node) : bool :=
+  match x with
+  | NMod _ args _ => forallb (fun a => wf_sigd T (fst a)) args
+  | NCall _ fs _ h _ b _ => N.eqb fs (T h) && wf_sigd T b
+  | NRun ns => forallb (wf_sigd T) ns
+  | _ => true
+  end.
+
 (** What the signature checker reads (check.rs:179-...): the content, and for a call the
     handle's [sig] field (check.rs:194 [handle_sig(func.sig)]) — not the body *)
 Fixpoint sig_deps (x : node) : node :=
@@ -227,17 +285,25 @@ Record binding := { b_kind : N; b_external : bool }.   (* kind: 0 Const, 1 pure 
 Definition nth_binding (bs : list binding) (i : N) : option binding := nth_error bs (N.to_nat i).
 
 (** 1-3. un / anti / under inverse (un.rs:30-59, 93-111; under.rs:30-61).
-    key: for each node of the slice, its content hash and its [Node::span()] if any;
-    under adds (g_sig, inverse).  The cached value is a tree of nodes carrying span
-    indices copied from the input and from the inlined bodies. *)
+    key (since 25aa9f6): [hash_deep(Some(asm))] of each node of the slice; under adds
+    (g_sig, inverse).  The cached value is a tree of nodes (or an error) carrying span
+    indices copied from the input and from the inlined bodies, function handles kept as
+    they are, and in errors the names of the functions that could not be inverted
+    (invert/mod.rs:258-264 [InversionError::func]). *)
 Definition inv_input : Type := list node * (N * bool).      (* nodes, (g_sig, inverse) — (0,false) for un/anti *)
-Definition inv_key (x : inv_input) : list (node * option N) * (N * bool) :=
+Definition inv_key (x : inv_input) : list node * (N * bool) := (map deep (fst x), snd x).
+Definition inv_deps (x : inv_input) : list node * (N * bool) := x.
+(** the dependencies other than the names/origins of the handles *)
+Definition inv_deps_no_names (x : inv_input) : list node * (N * bool) := (map no_names (fst x), snd x).
+(** a key that also feeds the handles' names and origins *)
+Definition inv_key_fix (x : inv_input) : list node * (N * bool) := x.
+
+(** the key before 25aa9f6: content hash and [Node::span()] of each node of the slice *)
+Definition inv_key_pre (x : inv_input) : list (node * option N) * (N * bool) :=
   (map (fun n => (erase n, first_span n)) (fst x), snd x).
-Definition inv_deps (x : inv_input) : list node * (N * bool) := (map with_spans (fst x), snd x).
-(** the repair "hash every span of the input recursively" (not enough) *)
+Definition inv_deps_pre (x : inv_input) : list node * (N * bool) := (map with_spans (fst x), snd x).
+(** "hash every span of the input recursively" (not enough: the spans of inlined bodies) *)
 Definition inv_key_fix1 (x : inv_input) : list node * (N * bool) := (map input_spans (fst x), snd x).
-(** the repair "hash every span of the input and of the bodies it reaches" *)
-Definition inv_key_fix2 (x : inv_input) : list node * (N * bool) := (map with_spans (fst x), snd x).
 
 (** 4. signature (check.rs:49-67): key = content hash of the slice *)
 Definition sig_key (x : list node) : list node := map erase x.
@@ -265,33 +331,39 @@ Definition pre_key (x : pre_input) : node := erase (fst x).
 Definition pre_deps (x : pre_input) : node * list (option (N * bool)) :=
   (content (fst x), look (snd x) (globals (fst x))).
 
-(** 7. fast row functions (zip.rs:133-148): key = the node (by content hash); the cached
-    value is a closure that bakes the span indices of the node (zip.rs:33-38, 50-81) and,
-    for reduce, a clone of the operand nodes with their [Function] handles, executed
-    later by index in whatever assembly is current (zip.rs:179-188; assembly.rs:611-620).
-    The closure's behaviour is a function of the node as is, indices and spans included. *)
-Definition zip_key (x : node) : node := erase x.
-Definition zip_deps (x : node) : node := x.
-Definition zip_key_fix (x : node) : node := x.
+(** 7. fast row functions (zip.rs:133-158): key (since 25aa9f6) = [hash_deep(None)] of the
+    node; the cached value is a closure that bakes the span indices of the node
+    (zip.rs:33-38, 50-81) and, for reduce, a clone of the operand nodes with their [Function]
+    handles (zip.rs:186-195), executed later BY INDEX in whatever assembly is current
+    (assembly.rs:611-620): the bodies are not part of the closure, the handles (name
+    included: it labels the trace frames, run.rs:840) are. *)
+Definition zip_key (x : node) : node := shallow x.
+Definition zip_deps (x : node) : node := no_bodies x.
+Definition zip_deps_no_names (x : node) : node := no_bodies (no_names x).
+Definition zip_key_fix (x : node) : node := no_bodies x.
+(** before 25aa9f6: the node by content hash *)
+Definition zip_key_pre (x : node) : node := erase x.
 
 (* ------------------------------------------------------------------ tie support *)
 
 (** one tie case: two exported real node slices, and what the implementation said about
     the equality of their keys: content hash of the slice (check.rs), content hash of the
-    node (tree.rs / pre_eval.rs / zip.rs), inverse key (un.rs / under.rs) *)
-Record tcase := TC { t_x : list node; t_y : list node; t_sig_eq : bool; t_node_eq : bool; t_inv_eq : bool }.
+    node (tree.rs / pre_eval.rs), inverse key (un.rs / under.rs), fast-function key (zip.rs) *)
+Record tcase := TC { t_x : list node; t_y : list node; t_sig_eq : bool; t_node_eq : bool; t_inv_eq : bool; t_zip_eq : bool }.
 
 Definition content_eqb (x y : list node) : bool := list_eqb node_eqb (map erase x) (map erase y).
-Definition inv_eqb (x y : list node) : bool :=
-  list_eqb (fun a b => node_eqb (erase a) (erase b) && opt_eqb (first_span a) (first_span b)) x y.
+Definition inv_eqb (x y : list node) : bool := list_eqb node_eqb (map deep x) (map deep y).
+Definition zip_eqb (x y : list node) : bool := list_eqb node_eqb (map shallow x) (map shallow y).
 
 Definition tcase_ok (c : tcase) : bool :=
   Bool.eqb (content_eqb (t_x c) (t_y c)) (t_sig_eq c) &&
   Bool.eqb (content_eqb (t_x c) (t_y c)) (t_node_eq c) &&
-  Bool.eqb (inv_eqb (t_x c) (t_y c)) (t_inv_eq c).
+  Bool.eqb (inv_eqb (t_x c) (t_y c)) (t_inv_eq c) &&
+  Bool.eqb (zip_eqb (t_x c) (t_y c)) (t_zip_eq c).
 
-(** the model's verdicts on a pair, for the dependency tie: same [deps] for
-    inverse / signature / zip, and same inverse key (1 = same) *)
+(** the model's verdicts on a pair, for the dependency tie: same inverse modulo handles
+    ([no_names] also forgetting the index: [with_spans]) / same [sig_deps] / identical,
+    and same inverse key (1 = same) *)
 Definition deps_eq (c : tcase) : list N :=
   map (fun b : bool => if b then 1 else 0)
   [ list_eqb node_eqb (map with_spans (t_x c)) (map with_spans (t_y c));
